@@ -193,7 +193,12 @@ func (f *ruleFactory) createExecutePipeline(
 					"an authenticator is defined after some other non authenticator type")
 			}
 
-			authenticator, err := f.hf.CreateAuthenticator(version, id.(string), getConfig(pipelineStep["config"]))
+			ref, conf, err := mechanismReference("authenticator", id, pipelineStep["config"])
+			if err != nil {
+				return nil, nil, nil, err
+			}
+
+			authenticator, err := f.hf.CreateAuthenticator(version, ref, conf)
 			if err != nil {
 				return nil, nil, nil, err
 			}
@@ -249,14 +254,17 @@ func (f *ruleFactory) createOnErrorPipeline(
 	for _, ehStep := range ehConfigs {
 		id, found := ehStep["error_handler"]
 		if found {
-			conf := getConfig(ehStep["config"])
+			ref, conf, err := mechanismReference("error_handler", id, ehStep["config"])
+			if err != nil {
+				return nil, err
+			}
 
 			condition, err := getExecutionCondition(ehStep["if"])
 			if err != nil {
 				return nil, err
 			}
 
-			handler, err := f.hf.CreateErrorHandler(version, id.(string), conf)
+			handler, err := f.hf.CreateErrorHandler(version, ref, conf)
 			if err != nil {
 				return nil, err
 			}
@@ -344,12 +352,36 @@ func createHandler[T subjectHandler](
 		return nil, err
 	}
 
-	handler, err := creteHandler(version, id.(string), getConfig(configMap["config"]))
+	ref, conf, err := mechanismReference(handlerType, id, configMap["config"])
+	if err != nil {
+		return nil, err
+	}
+
+	handler, err := creteHandler(version, ref, conf)
 	if err != nil {
 		return nil, err
 	}
 
 	return &conditionalSubjectHandler{h: handler, c: condition}, nil
+}
+
+// mechanismReference verifies the types of a mechanism reference (the id of the mechanism and its optional,
+// rule specific config), as these are taken as is from the rule set, and returns the corresponding values.
+func mechanismReference(mechanismType string, id, conf any) (string, config.MechanismConfig, error) {
+	ref, ok := id.(string)
+	if !ok || len(ref) == 0 {
+		return "", nil, errorchain.NewWithMessagef(heimdall.ErrConfiguration,
+			"unexpected value for the %s reference: a non empty string is expected, got '%T'", mechanismType, id)
+	}
+
+	if conf != nil {
+		if _, ok = conf.(map[string]any); !ok {
+			return "", nil, errorchain.NewWithMessagef(heimdall.ErrConfiguration,
+				"unexpected type '%T' for the config of the %s '%s'", conf, mechanismType, ref)
+		}
+	}
+
+	return ref, getConfig(conf), nil
 }
 
 func getConfig(conf any) config.MechanismConfig {
